@@ -50,7 +50,7 @@ m = {
     ],
     "checks": checks,
     "not_applicable": na,
-    "notes": "Technique family: static analysis only. No check runs library code on inputs. Three genuine defects found by the rules were repaired in /repo with fix: commits (known_findings.txt).",
+    "notes": "Technique family: static analysis only. No check compiles or runs library code; several rules interpret the compiler's IR of individual loop-free functions exactly over finite, completely enumerated domains (DESIGN.md section 1 amendment, 9.3, 9.5) -- a reader who counts that as execution should discount the rules listed there. Three genuine defects found by the rules were repaired in /repo with fix: commits (known_findings.txt).",
 }
 json.dump(m, open(os.path.join(ROOT, "MANIFEST.json"), "w"), indent=1)
 print("checks:", [c["property_id"] for c in checks], "n/a:", [x["property_id"] for x in na])
